@@ -202,13 +202,20 @@ func (vm *VM) convertPanic(msg any) error {
 		}
 	case OpIf, -OpIf:
 		if err, ok := msg.(runtime.Error); ok {
-			if s := err.Error(); strings.HasPrefix(s, "runtime error: comparing uncomparable type ") {
+			s := err.Error()
+			if strings.HasPrefix(s, "runtime error: comparing uncomparable type ") || isUnhashableTypeError(s) {
 				return vm.newPanic(runtimeError(s))
 			}
 		}
 	case OpIndexString, -OpIndexString:
 		if err, ok := msg.(runtime.Error); ok {
 			if s := err.Error(); strings.HasPrefix(s, "runtime error: index out of range") {
+				return vm.newPanic(runtimeError(s))
+			}
+		}
+	case OpMapIndex, -OpMapIndex:
+		if err, ok := msg.(runtime.Error); ok {
+			if s := err.Error(); isUnhashableTypeError(s) {
 				return vm.newPanic(runtimeError(s))
 			}
 		}
@@ -263,6 +270,13 @@ func (vm *VM) convertPanic(msg any) error {
 		return vm.newPanic(msg)
 	}
 	return &fatalError{msg: msg}
+}
+
+// isUnhashableTypeError reports whether s is the message of the run-time
+// error raised by a map operation with a key of an unhashable type.
+func isUnhashableTypeError(s string) bool {
+	return strings.HasPrefix(s, "runtime error: hash of unhashable type ") ||
+		strings.HasPrefix(s, "hash of unhashable type: ")
 }
 
 type PanicError struct {
